@@ -5,6 +5,7 @@ from __future__ import annotations
 from typing import Callable, ClassVar, Final
 
 import jax
+import numpy as np
 from jax2onnx._compat.jax import (
     AbstractValue,
     JaxprEqn,
@@ -24,7 +25,6 @@ from jax2onnx.plugins.jax.nn._builder_utils import (
     lower_unary_elementwise,
     register_unary_elementwise_batch_rule,
 )
-
 
 _RELU_PRIM: Final[Primitive] = Primitive("jax.nn.relu")
 _RELU_PRIM.multiple_results = False
@@ -97,10 +97,14 @@ class ReluPlugin(PrimitiveLeafPlugin):
         return ShapedArray(x.shape, x.dtype)
 
     def lower(self, ctx: LoweringContextProtocol, eqn: JaxprEqn) -> None:
+        x_dtype = np.dtype(getattr(eqn.invars[0].aval, "dtype", np.float32))
         lower_unary_elementwise(
             ctx,
             eqn,
-            op_name="Relu",
+            # ONNX Relu has no unsigned variant; relu is the identity on unsigned integers.
+            op_name=(
+                "Identity" if np.issubdtype(x_dtype, np.unsignedinteger) else "Relu"
+            ),
             input_hint="relu_in",
             output_hint="relu_out",
         )
